@@ -225,7 +225,7 @@ fn c01_string_pool_stream_names_are_not_table_names() {
 
 #[test]
 fn c04_create_table_with_leftover_validation_rows_is_atomic() {
-    // fix e2efc80
+    // fix 9e7d89a
     let mut p = new_pkg();
     let mut stale = vec![Value::from("New"), Value::from("K"), Value::from("N")];
     stale.extend(std::iter::repeat(Value::Null).take(7));
@@ -241,4 +241,44 @@ fn c04_create_table_with_leftover_validation_rows_is_atomic() {
         let p = reopen(p);
         assert!(p.has_table("New"));
     }
+}
+
+#[test]
+fn c11_has_stream_is_false_for_internal_stream_names() {
+    // fix f3d46a4
+    let mut p = new_pkg();
+    t1(&mut p);
+    p.insert_rows(Insert::into("T1").row(vec![Value::Int(1), Value::from("a")])).unwrap();
+    let p = reopen(p);
+    for name in ["\u{4840}_StringPool", "\u{4840}_StringData", "\u{4840}_Tables", "\u{4840}T1"] {
+        assert!(!p.has_stream(name), "{:?}", name);
+    }
+}
+
+#[test]
+fn c20_existing_string_does_not_use_up_a_free_pool_entry() {
+    // fix c7252ba (scaled down: the observable is that the text is stored once)
+    let mut p = new_pkg();
+    t1(&mut p);
+    p.insert_rows(Insert::into("T1").row(vec![Value::Int(1), Value::from("first")]).row(vec![Value::Int(2), Value::from("second")])).unwrap();
+    p.delete_rows(Delete::from("T1").with(Expr::col("K").eq(Expr::integer(1)))).unwrap();
+    p.insert_rows(Insert::into("T1").row(vec![Value::Int(3), Value::from("second")]).row(vec![Value::Int(4), Value::from("third")])).unwrap();
+    let mut p = reopen(p);
+    assert_eq!(rows(&mut p, "T1").len(), 3);
+    // "second" is stored once: the entry freed by the delete went to "third"
+    let bytes = p.into_inner().unwrap().into_inner();
+    let mut comp = cfb::CompoundFile::open(Cursor::new(bytes)).unwrap();
+    let mut data = Vec::new();
+    use std::io::Read;
+    for e in comp.read_root_storage().map(|e| e.path().to_path_buf()).collect::<Vec<_>>() {
+        let mut v = Vec::new();
+        if comp.open_stream(&e).and_then(|mut s| s.read_to_end(&mut v)).is_ok() {
+            let text = String::from_utf8_lossy(&v).to_string();
+            if text.contains("second") {
+                data = v;
+            }
+        }
+    }
+    let text = String::from_utf8_lossy(&data);
+    assert_eq!(text.matches("second").count(), 1, "string data: {:?}", text);
 }
